@@ -34,19 +34,9 @@ def run(prog, check):
     if solver_cls is None:
         raise AnalysisError('sweep function is not a method')
     # ---- R1 ----------------------------------------------------------------------------------------
-    builders = []
-    for f in solver_cls.methods.values():
-        parts = {x.attr for x in ast.walk(f.node) if isinstance(x, ast.Attribute) and x.attr in PARTITIONS}
-        assigns = [n for n in ast.walk(f.node) if isinstance(n, ast.Assign) and isinstance(n.targets[0], ast.Attribute)
-                   and isinstance(n.targets[0].value, ast.Name) and n.targets[0].value.id == 'self']
-        if len(parts) >= 3 and assigns and not any(isinstance(x, ast.Call) and call_name(x) in ('eval', 'deepcopy', '_GetCopy', 'SolveStep')
-                                                   for x in ast.walk(f.node)) and f.name != '__init__' and \
-                isinstance(assigns[0].value, (ast.List, ast.ListComp, ast.Call, ast.BinOp)):
-            builders.append((f, assigns[0].targets[0].attr, parts))
-    if len(builders) != 1:
-        raise AnalysisError('cannot identify the variable-list builder: %s' % [b[0].qualname for b in builders])
-    M, D, parts = builders[0]
-    check.saw(M)
+    from ..solver_model import variable_list_builder
+    M_raw, M, D, parts = variable_list_builder(prog, solver_cls)
+    check.saw(M_raw)
     sources = set()
     for x in ast.walk(M.node):
         if isinstance(x, ast.Attribute) and x.attr in PARTITIONS:
